@@ -188,7 +188,7 @@ pub fn check(_ctx: &Ctx, input: &Input) -> CaseResult {
 fn run(ctx: &Ctx) {
     let plans = [GenPlan {
         gen: "full-nobig",
-        cases: ctx.tier.pick(3000, 150_000),
+        cases: ctx.tier.pick(20_000, 400_000),
         min_len: 0,
         max_len: ctx.tier.pick(1200, 3000),
     }];
